@@ -270,6 +270,19 @@ for _cn, _ce in _KW_STMTS.items():
         CONSTRUCTS.append((f"keywords-on:{_cn}:{_kn}", "must-reject",
                            ["cq = qubit()", "dq = qubit()", "eq = qubit()", *_ce.format(kw=_kw2).split("\n"), "discard(cq)", "discard(dq)", "discard(eq)"]))
 
+# control-flow expressions (walrus, conditional expression, and / or, comparison chain) cannot be lowered inside a
+# comprehension; at every DEPTH (directly / inside a call argument / two calls deep) and in every PART of the
+# comprehension (element, guard, iterable) they must be rejected or take effect
+_CF = {"walrus": "(y := note(5))", "ifexp": "(note(1) if c else note(2))", "and": "int(c and note(1) > 0)", "chain": "int(0 < note(1) < 2)"}
+_DEPTH = {"direct": "{e}", "call-argument": "sub({e}, 0)", "nested-call-argument": "sub(sub({e}, 0), 0)", "method-argument": "P({e}, 0).u",
+          "operand-of-call-argument": "sub(1 + {e}, 1)"}
+_PARTS = {"element": "array({e} + i for i in range(2))", "guard": "array(i for i in range(3) if {e} > 0)",
+          "iterable": "array(i for i in range({e}))", "second-iterable": "array(i + j for i in range(2) for j in range({e}))"}
+for (_cn, _ce), (_dn, _de), (_pn, _pe) in _it.product(_CF.items(), _DEPTH.items(), _PARTS.items()):
+    CONSTRUCTS.append((f"comprehension-control-flow:{_cn}:{_dn}:{_pn}", "observe",
+                       ["y = 100", "ys = " + _pe.format(e=_de.format(e=_ce)), 'result("y", y)', 'result("n", len(ys))',
+                        "for v in ys:", '    result("v", v)']))
+
 PLACEMENTS = {
     "body": lambda ls: ls,
     "in-if": lambda ls: ["if c:"] + ["    " + l for l in ls],
